@@ -84,8 +84,10 @@ def template(rnd, cg, lits, gname=None, prefer=None, only=None):
     if k == "toint":
         N = pick(rnd, num)
         op = pick(rnd, ["<", "<=", ">", ">=", "="])
+        # small bounds (0, 1, 2) one time in three: the values 0 and 1 are where signs and padding are special
+        bound = rnd.randint(0, 2) if chance(rnd, 0.33) else rnd.randint(0, 60)
         return k, [pick(rnd, ["forall", "forall", "exists"]), N, v, "start", None,
-                   ["smt", [op, ["str.to.int", ["var", v]], ["int", rnd.randint(0, 60)]]]]
+                   ["smt", [op, ["str.to.int", ["var", v]], ["int", bound]]]]
     if k == "toint_and_part":
         # a numeric condition on a numeral-valued node together with a condition on one of its parts (e.g. its leading
         # digit): whatever value the solver finds for the number must keep the part as constrained
